@@ -213,6 +213,18 @@ fn run_diff(ctx: &Ctx, engine: Engine, local_calls: bool, quick: u64, thorough: 
         let v = check_diff(&mut runner.borrow_mut(), &mut case, engine, if frozen { None } else { Some(&mut st) });
         (v, if want_case { case.to_json() } else { Value::Null })
     });
+    let cases = ctx.share(ctx.tier.pick(quick / 8, thorough / 8));
+    ctx.shrink_iters.set(500);
+    ctx.search("dense", "exec", cases, gen::dense_alu(300), |c, want_case| {
+        let mut case = c.clone();
+        let mut st = ctx.stats();
+        let frozen = st.is_frozen() || want_case;
+        if !frozen {
+            st.class("dense-alu-stream");
+        }
+        let v = check_diff(&mut runner.borrow_mut(), &mut case, engine, if frozen { None } else { Some(&mut st) });
+        (v, if want_case { case.to_json() } else { Value::Null })
+    });
     let cases = ctx.share(ctx.tier.pick(long_quick, long_thorough));
     ctx.shrink_iters.set(200);
     ctx.search("long", "exec", cases, gen::program(local_calls, true), |p, want_case| {
